@@ -392,6 +392,9 @@ class Fixture(object):
         for cls in (m['enc'].PreviousNodeBlock, m['enc'].BundleAgeBlock):
             for d in cls._overload_fields.values():
                 d.pop('block_num', None)
+        # … and with an empty default of PacketListField('blocks', default=[]): forwarding a bundle
+        # without any canonical block inserts into that shared list (see c11.zero_block_leak)
+        del m['enc'].Bundle().getfieldval('blocks')[:]
         self.config = m['config'].Config(node_id=node_text)
         self.config._bus_conn = FakeBus()
         self.agent = m['agent'].Agent(self.config, bus_kwargs=dict(conn=None, object_path='/a'))
